@@ -225,10 +225,31 @@ static int recv_events(m_ctx_t *c, int timeout) {
     fetch_ms(&now, NULL);
     c->stats.idle_time += now - c->stats.last_time_called;
 
+    /*
+     * User callbacks run while this batch is processed may pause, stop or deregister
+     * modules, thus destroying their sources: keep every returned source alive
+     * until the whole batch has been processed.
+     */
+    const int batch_len = nfds > 0 ? nfds : 0;
+    ev_src_t *batch[batch_len + 1];
+    for (int i = 0; i < batch_len; i++) {
+        batch[i] = m_mem_ref(poll_recv(&c->ppriv, i));
+    }
+
     for (int i = 0; i < nfds && !err; i++) {
-        ev_src_t *p = poll_recv(&c->ppriv, i);
+        ev_src_t *p = batch[i];
         if (p) {
             M_ASSERT(p->process);
+            if (!p->ev) {
+                /*
+                 * The source left the poll set because of a previous callback of this batch
+                 * (its module was paused, stopped or deregistered, or the source was deregistered):
+                 * its module must not receive the event.
+                 */
+                continue;
+            }
+            /* Only errors met while consuming this event matter: user callbacks may leave errno dirty */
+            errno = 0;
             if (!p->mod) {
                 // It is a ctx priv event
                 p = p->process(p, c, i, NULL);
@@ -281,7 +302,17 @@ static int recv_events(m_ctx_t *c, int timeout) {
                         msg_consumed = true;
                     } else {
                         M_INFO("PoisonPilling '%s'.\n", mod->name);
-                        stop(mod, true);
+                        /* Everything sent before the pill must be delivered: flush still batched events first */
+                        M_MEM_LOCK(mod, {
+                            if (m_queue_len(mod->batch.events) > 0) {
+                                m_queue_t *evts = mod->batch.events;
+                                mod->batch.events = m_queue_new(mem_dtor);
+                                call_pubsub_cb(mod, evts);
+                            }
+                            if (m_mod_is(mod, M_MOD_RUNNING | M_MOD_PAUSED)) {
+                                stop(mod, true);
+                            }
+                        });
                     }
                 }
             }
@@ -298,6 +329,10 @@ static int recv_events(m_ctx_t *c, int timeout) {
             err = EAGAIN;
             M_WARN("Received message without proper source: src -> %p\n", p);
         }
+    }
+
+    for (int i = 0; i < batch_len; i++) {
+        m_mem_unref(batch[i]);
     }
 
     if (recved > 0 && err == 0) {
